@@ -351,6 +351,7 @@ func describeJS(a jsArg) string {
 type nodeOut struct {
 	Fatal         string   `json:"fatal"`
 	ExportedNames []string `json:"exported_names"`
+	EntryCalls    int      `json:"entry_function_calls"`
 	Results       []struct {
 		ID       int   `json:"id"`
 		Global   jsVal `json:"global"`
@@ -362,7 +363,7 @@ func runNode(c *Ctx, cases []jsCase, tag string) (*nodeOut, string, error) {
 	return runNodeIn(c, c.Env["VERIF_JS_DIR"], cases, tag)
 }
 
-func runNodeIn(c *Ctx, dir string, cases []jsCase, tag string) (*nodeOut, string, error) {
+func runNodeIn(c *Ctx, dir string, cases []jsCase, tag string, mode ...string) (*nodeOut, string, error) {
 	drv, scratch := c.Env["VERIF_JS_DRIVER"], c.Env["VERIF_SCRATCH"]
 	if dir == "" || drv == "" {
 		return nil, "", fmt.Errorf("wasm module / Node driver not provided by bin/check")
@@ -373,7 +374,7 @@ func runNodeIn(c *Ctx, dir string, cases []jsCase, tag string) (*nodeOut, string
 	os.WriteFile(cp, b, 0o644)
 	ctx, cancel := context.WithTimeout(context.Background(), 10*time.Minute)
 	defer cancel()
-	cmd := exec.CommandContext(ctx, "node", drv, dir, cp, op)
+	cmd := exec.CommandContext(ctx, "node", append([]string{drv, dir, cp, op}, mode...)...)
 	outB, err := cmd.CombinedOutput()
 	tail := string(outB)
 	if len(tail) > 2000 {
@@ -484,6 +485,7 @@ func init() {
 			}
 			c20Native(c)
 			c20Committed(c)
+			c20Reinit(c)
 		},
 		Replay: func(c *Ctx, kind string, raw json.RawMessage) error {
 			if kind != "js" {
@@ -540,6 +542,40 @@ func c20Committed(c *Ctx) {
 		judgeJS(c, k, "committed-artefact/exports", no.Results[i].Exported)
 		r.Count("calls_on_committed_artefact", 1)
 	}
+}
+
+// c20Reinit: the package's entry function called several times in one process (same module instance): every object it
+// has returned and the global names must keep answering like the native library and keep refusing malformed calls.
+func c20Reinit(c *Ctx) {
+	r := c.R
+	sub := *c
+	sub.RNG = c.RNG.Fork(2077)
+	cases := c20Cases(&sub, c.N(2500, 30000))
+	no, tail, err := runNodeIn(c, c.Env["VERIF_JS_DIR"], cases, "reinit", "reinit")
+	if err != nil || no == nil || no.Fatal != "" {
+		msg := fmt.Sprint(err)
+		if no != nil && no.Fatal != "" {
+			msg = no.Fatal
+		}
+		r.Inconclusive("Node run with repeated initialisation failed: " + msg + " " + clipS(tail))
+		return
+	}
+	byID := map[int]int{}
+	for i, res := range no.Results {
+		byID[res.ID] = i
+	}
+	for _, k := range cases {
+		i, ok := byID[k.ID]
+		if !ok {
+			r.Violate("C20|"+k.Fn+"|no-result|after-repeated-initialisation", "the module stopped answering", "js", k, k.Want, "no result; node output: "+clipS(tail))
+			break
+		}
+		r.Nontrivial("reinit|" + k.Fn + "|" + mustJSON(k.Args))
+		judgeJS(c, k, "after-repeated-initialisation/globalThis", no.Results[i].Global)
+		judgeJS(c, k, "after-repeated-initialisation/exports", no.Results[i].Exported)
+		r.Count("calls_after_repeated_initialisation", 1)
+	}
+	r.Count("entry_function_calls_in_one_process", no.EntryCalls)
 }
 
 // c20Native: the binding's Go sources compiled natively (overlay) against the same oracle, larger domain.
